@@ -80,10 +80,18 @@ def render(n, c):
         body.append("    En :: enum { A | %s, B };" % e)
     else:
         body.append("    r := %s(%s);" % ("zero" if so == "type" else "take", e))
-    head = "k%d :: (comptime N: usize, comptime T: type, comptime M: u8) {" % n if c["base"] == "cp" else "k%d :: () {" % n
+    # comptime parameters first, or after a run-time parameter (their position among all
+    # parameters then differs from their position among the comptime ones); distinct values
+    late_cp = n % 2 == 1
+    head = ("k%d :: (%scomptime N: usize, comptime T: type, comptime M: u8) {" % (n, "tag: i32, " if late_cp else "")) \
+        if c["base"] == "cp" else "k%d :: () {" % n
     # a function with comptime parameters is only checked when it is instantiated
-    inst = ["c%d :: () { k%d(5, i32, 5); }" % (n, n)] if c["base"] == "cp" else []
+    inst = ["c%d :: () { k%d(%s); }" % (n, n, cp_args(n))] if c["base"] == "cp" else []
     return "\n".join(pre_fn + [head] + body + ["}"] + inst + post_fn), lib
+
+
+def cp_args(n):
+    return ("9, " if n % 2 == 1 else "") + "5, i32, 6"
 
 
 def short(c):
@@ -143,7 +151,7 @@ def run(chk):
             runnable.append(n)
 
     def program(ns):
-        calls = "\n".join("    k%d(%s);" % (n, "5, i32, 5" if cases[n]["c"]["base"] == "cp" else "") for n in ns)
+        calls = "\n".join("    k%d(%s);" % (n, cp_args(n) if cases[n]["c"]["base"] == "cp" else "") for n in ns)
         return PRE + "\n".join(snips[n] for n in ns) + "\nmain :: () -> i32 {\n" + calls + "\n    0\n}\n"
     nrun = 0
     if runnable:
